@@ -125,6 +125,7 @@ theorem C14_tie_fn_freshOCSP (K now : Int) (r : CM.OCSP.Resp)
         Bool.false_eq_true, if_false, hsub nu hn1 hn2, time_Add]
       have e : r.thisUpdate + K + (nu - r.thisUpdate).tdiv 2 = (r.thisUpdate + (nu - r.thisUpdate).tdiv 2) + K := by omega
       rw [e, hbefore]
+      all_goals (try simp)
     | some ca =>
       obtain ⟨_, hc1, hc2⟩ := hca ca hc
       simp only [Option.map_some, Option.getD_some, Option.isSome_some, Bool.true_and, deref, hbefore]
@@ -132,9 +133,11 @@ theorem C14_tie_fn_freshOCSP (K now : Int) (r : CM.OCSP.Resp)
       · simp only [hlt, decide_true, if_true, hsub ca hc1 hc2, time_Add]
         have e : r.thisUpdate + K + (ca - r.thisUpdate).tdiv 2 = (r.thisUpdate + (ca - r.thisUpdate).tdiv 2) + K := by omega
         rw [e, hbefore]
+        all_goals (try simp)
       · simp only [hlt, decide_false, Bool.false_eq_true, if_false, hsub nu hn1 hn2, time_Add]
         have e : r.thisUpdate + K + (nu - r.thisUpdate).tdiv 2 = (r.thisUpdate + (nu - r.thisUpdate).tdiv 2) + K := by omega
         rw [e, hbefore]
+        all_goals (try simp)
 
 /-! ### what the printed definitions mean -/
 
